@@ -6,8 +6,10 @@ cd /repo
 unset RUSTFLAGS
 export CARGO_NET_OFFLINE=true
 OUT=$(mktemp -d)
+rm -f /repo/target/nextest/pb/junit.xml
 cargo nextest run --workspace --no-fail-fast --tool-config-file pb:/w/lib/nextest.toml --profile pb --test-threads 8 --offline >"$OUT/log" 2>&1
 J=/repo/target/nextest/pb/junit.xml
+if [ ! -f "$J" ]; then echo "baseline did not run (build failure?)"; tail -20 "$OUT/log"; rm -rf "$OUT"; exit 1; fi
 python3 - "$J" <<'PY'
 import json,sys,xml.etree.ElementTree as ET
 stable=set(json.load(open('/root/.vp/BASELINE.json'))['stable_pass'])
